@@ -8,7 +8,7 @@ import warnings
 import numpy as np
 
 from vf import crain
-from vf.core import REPO, Result
+from vf.core import jsame, REPO, Result
 
 PROP = "C10"
 LEVEL = "model_checking"
@@ -470,7 +470,7 @@ def _run(sh, res):
         return [x for x in m if x[0].get("part") == "sigcount" and x[0]["y"] == sh["y"]]
     if part == "binify":
         m = table_msgs(np.array(sh["cyc"]), res, sh.get("tag", ""))
-        return [x for x in m if all(x[0].get(k) == sh.get(k) for k in ("amp", "mean", "right", "cb")) or (x[0].get("amp") == tuple(sh["amp"]) if isinstance(sh.get("amp"), list) else False)]
+        return [x for x in m if all(jsame(x[0].get(k), sh.get(k)) for k in ("amp", "mean", "right", "cb"))]
     if part == "synthetic":
         msgs = []
         for i, cyc in enumerate(synthetic_tables()):
